@@ -1,7 +1,7 @@
 from typing import Optional
 import pandas as pd  # type: ignore
 import numpy as np  # type: ignore
-from math import floor, log10
+from decimal import Decimal
 from cfinterface.components.field import Field
 
 
@@ -73,7 +73,7 @@ class FloatField(Field):
                     round(
                         self.value,
                         self.__decimal_digits
-                        - int(floor(log10(abs(self.value)))),
+                        - Decimal(float(self.value)).adjusted(),
                     ),
                     d=self.__decimal_digits,
                     format=self.__format,
